@@ -98,6 +98,32 @@ pub fn worker_configuration(
     }
 }
 
+/// Parameters of an allocation queue (only recorded in the journal; no allocation is submitted).
+pub fn queue_parameters(arg: u32) -> hyperqueue::server::autoalloc::QueueParameters {
+    use crate::common::sub;
+    use hyperqueue::common::manager::info::ManagerType;
+    hyperqueue::server::autoalloc::QueueParameters {
+        manager: if sub(arg, 160, 2) == 0 { ManagerType::Slurm } else { ManagerType::Pbs },
+        max_workers_per_alloc: 1 + sub(arg, 161, 3) as u32,
+        backlog: 1 + sub(arg, 162, 4) as u32,
+        timelimit: Duration::from_secs(600 * (1 + sub(arg, 163, 3) as u64)),
+        name: if sub(arg, 164, 2) == 0 { Some(format!("q{}", sub(arg, 165, 100))) } else { None },
+        max_worker_count: if sub(arg, 166, 2) == 0 { Some(2 + sub(arg, 167, 4) as u32) } else { None },
+        min_utilization: 0.0,
+        additional_args: if sub(arg, 168, 2) == 0 { vec!["--partition=p1".to_string()] } else { Vec::new() },
+        worker_start_cmd: None,
+        worker_stop_cmd: None,
+        worker_wrap_cmd: None,
+        cli_resource_descriptor: if sub(arg, 169, 3) == 0 {
+            Some(worker_descriptor(sub(arg, 170, N_WORKER_PALETTE)).0)
+        } else {
+            None
+        },
+        worker_args: Vec::new(),
+        idle_timeout: None,
+    }
+}
+
 pub const N_RQ_PALETTE: usize = 14;
 
 fn entry(name: &str, policy: AllocationRequest) -> ResourceRequestEntry {
